@@ -1,2 +1,156 @@
-/-! Driver for C13 (stub: not built yet). -/
-def main : IO Unit := pure ()
+import Drivers.Proto
+import PymocaVerif.Model.Attr
+/-! Driver for C13: stored attribute kinds and element values of generated declarations, and the
+    five metadata matrices, at exact parameter vectors. -/
+open Lean Drivers PymocaVerif PymocaVerif.Attr
+
+def parseRat (j : Json) : Except String Rat := do
+  let a ← j.getArr?
+  let n ← (a[0]?.getD Json.null).getInt?
+  let d ← (a[1]?.getD Json.null).getNat?
+  if d == 0 then throw "zero denominator" else pure (mkRat n d)
+
+def showNum : Num → Json
+  | .nan => Json.str "nan"
+  | .pinf => Json.str "inf"
+  | .ninf => Json.str "-inf"
+  | .fin q => Json.arr #[Json.num (JsonNumber.fromInt q.num), Json.num (JsonNumber.fromNat q.den)]
+
+def parseLit (j : Json) : Except String Lit := do
+  let t ← getStr j "t"
+  match t with
+  | "int" => pure (.int (← getInt j "v"))
+  | "real" => pure (.real (← parseRat (← getObj j "v")))
+  | "bool" => pure (.bool (← getBool j "v"))
+  | "inf" => pure (.inf (← getBool j "neg"))
+  | _ => throw s!"bad literal {t}"
+
+def parsePType (s : String) : Except String PType :=
+  match s with
+  | "Real" => pure .float
+  | "Integer" => pure .int
+  | "Boolean" => pure .bool
+  | _ => throw s!"bad type {s}"
+
+def showPType : PType → String
+  | .float => "float" | .int => "int" | .bool => "bool"
+
+/-- offsets and sizes of the parameters in the parameter vector -/
+structure ParInfo where
+  off : Nat
+  n : Nat
+
+partial def parseE (ps : Array ParInfo) (j : Json) : Except String E := do
+  let op ← getStr j "op"
+  let sub (k : String) : Except String E := do parseE ps (← getObj j k)
+  match op with
+  | "num" => pure (.num (← parseRat (← getObj j "v")))
+  | "par" => do
+    let i ← getNat j "i"
+    let some pi := ps[i]? | throw "bad parameter index"
+    match (← getObj j "el") with
+    | Json.null => pure (.par pi.off pi.n)
+    | el => do
+      let k ← el.getNat?
+      if k == 0 || k > pi.n then throw "bad element index" else pure (.par (pi.off + (k - 1)) 1)
+  | "neg" => return .neg (← sub "a")
+  | "abs" => return .abs (← sub "a")
+  | "add" => return .add (← sub "a") (← sub "b")
+  | "sub" => return .sub (← sub "a") (← sub "b")
+  | "mul" => return .mul (← sub "a") (← sub "b")
+  | "div" => return .div (← sub "a") (← sub "b")
+  | "max" => return .max (← sub "a") (← sub "b")
+  | "min" => return .min (← sub "a") (← sub "b")
+  | "ite" => do
+    let c ← getNat j "c"
+    let some pi := ps[c]? | throw "bad parameter index"
+    return .ite pi.off (← sub "a") (← sub "b")
+  | _ => throw s!"bad expression op {op}"
+
+def parseDecl (ps : Array ParInfo) (j : Json) : Except String Decl := do
+  let k ← getStr j "k"
+  match k with
+  | "lit" => return .lit (← parseLit (← getObj j "v"))
+  | "arr" => do
+    let rows ← (← getArr j "rows").toList.mapM fun r => do
+      (← r.getArr?).toList.mapM parseLit
+    return .arr rows
+  | "expr" => return .expr (← parseE ps (← getObj j "e"))
+  | "arrexpr" => do
+    let es ← (← getArr j "elems").toList.mapM (parseE ps)
+    return .arrE es
+  | "dm" => return .dm (← parseRat (← getObj j "v"))
+  | _ => throw s!"bad declaration {k}"
+
+def optDecl (ps : Array ParInfo) (attrs : Json) (k : String) : Except String (Option Decl) :=
+  match attrs.getObjVal? k with
+  | .ok Json.null => pure none
+  | .ok d => (parseDecl ps d).map some
+  | .error _ => pure none
+
+def parseDims (j : Json) : Except String (List Nat) := do
+  (← getArr j "dims").toList.mapM (·.getNat?)
+
+def parseVar (ps : Array ParInfo) (j : Json) : Except String Var := do
+  let t ← parsePType (← getStr j "type")
+  let dims ← parseDims j
+  let attrs ← getObj j "attrs"
+  pure { ptype := t, dims := dims,
+         value := ← optDecl ps attrs "value", min := ← optDecl ps attrs "min", max := ← optDecl ps attrs "max",
+         start := ← optDecl ps attrs "start", fixed := ← optDecl ps attrs "fixed",
+         nominal := ← optDecl ps attrs "nominal" }
+
+def attrName : AttrName → String
+  | .value => "value" | .min => "min" | .max => "max" | .start => "start" | .fixed => "fixed" | .nominal => "nominal"
+
+def parseCase (req : Json) : Except String (List Var × List (Nat → Rat)) := do
+  let vars ← getArr req "vars"
+  let npar ← getNat req "npar"
+  let mut ps : Array ParInfo := #[]
+  let mut off := 0
+  for i in [0:npar] do
+    let dims ← parseDims (vars[i]?.getD Json.null)
+    let n := dims.foldl (· * ·) 1
+    ps := ps.push ⟨off, n⟩
+    off := off + n
+  let vs ← vars.toList.mapM (parseVar ps)
+  let pvecs ← (← getArr req "pvecs").toList.mapM fun pv => do
+    let xs ← (← pv.getArr?).mapM parseRat
+    pure (fun (i : Nat) => xs[i]?.getD 0)
+  pure (vs, pvecs)
+
+def transpose (cols : List (List Num)) : List (List Num) :=
+  let n := (cols.head?.map List.length).getD 0
+  (List.range n).map fun i => cols.map fun c => c[i]?.getD .nan
+
+def handle (req : Json) : Except String Json := do
+  let op ← getStr req "op"
+  match op with
+  | "attrs" => do
+    let (vs, pvecs) ← parseCase req
+    let out := vs.map fun v =>
+      let attrs := casadiAttributes.map fun a =>
+        let s := store v a
+        (attrName a, Json.mkObj [("t", Json.str (s.tag a)),
+          ("v", Json.arr (pvecs.map fun p => Json.arr ((s.values a p).map showNum).toArray).toArray)])
+      Json.mkObj [("ptype", Json.str (showPType v.ptype)), ("attrs", Json.mkObj attrs)]
+    pure (Json.mkObj [("ok", true), ("vars", Json.arr out.toArray)])
+  | "meta" => do
+    let (vs, pvecs) ← parseCase req
+    let lists ← (← getArr req "lists").toList.mapM fun l => do
+      (← l.getArr?).toList.mapM fun i => do
+        let k ← i.getNat?
+        match vs[k]? with
+        | some v => pure v
+        | none => throw "bad variable index"
+    let nParams := (lists[3]?.getD []).length
+    let metas ← pvecs.mapM fun p =>
+      match metadata nParams lists p with
+      | some ms => pure (Json.arr (ms.map fun cols =>
+          Json.arr ((transpose cols).map fun row => Json.arr (row.map showNum).toArray).toArray).toArray)
+      | none => throw "horzcat-dimension-mismatch"
+    pure (Json.mkObj [("ok", true), ("affine", Json.bool (decide (0 < nParams) && allAffine lists)),
+      ("meta", Json.arr metas.toArray)])
+  | o => throw s!"unknown-op {o}"
+
+def main : IO Unit := serve handle
